@@ -258,17 +258,26 @@ func cmdSchedRec(o *Out, line string, f []string) {
 // tickCollector counts Add calls and fails on chosen ones (it does not look at the samples: marshalling a histogram
 // point is far too slow to do on every tick)
 type tickCollector struct {
-	mu     sync.Mutex
-	calls  int
-	failAt map[int]bool
+	mu      sync.Mutex
+	calls   int // completed calls
+	started int
+	failAt  map[int]bool
+	slow    time.Duration // the failing Adds take this long: EndTest arrives while such a background flush is in flight
 }
 
 func (c *tickCollector) Add(interface{}) error {
 	c.mu.Lock()
+	k := c.started
+	c.started++
+	c.mu.Unlock()
+	if c.slow > 0 && c.failAt[k] {
+		time.Sleep(c.slow) // the failing calls are the slow ones
+	}
+	c.mu.Lock()
 	defer c.mu.Unlock()
 	c.calls++
-	if c.failAt[c.calls-1] {
-		return fmt.Errorf("scripted failure of Add #%d", c.calls-1)
+	if c.failAt[k] {
+		return fmt.Errorf("scripted failure of Add #%d", k)
 	}
 	return nil
 }
@@ -277,6 +286,7 @@ func (c *tickCollector) Resolve() ([]byte, error)      { return nil, nil }
 func (c *tickCollector) Reset()                        {}
 func (c *tickCollector) Info() ftdc.CollectorInfo      { return ftdc.CollectorInfo{} }
 func (c *tickCollector) n() int                        { c.mu.Lock(); defer c.mu.Unlock(); return c.calls }
+func (c *tickCollector) startedN() int                 { c.mu.Lock(); defer c.mu.Unlock(); return c.started }
 
 // rec-tick <kind: interval | histInterval> <failing Add indexes, comma separated or -> <K> <cycles>
 // An interval recorder with a 2 ms interval and a collector that fails on chosen calls: while a test is open a sample
@@ -290,6 +300,12 @@ func cmdRecTick(o *Out, line string, f []string) {
 	var res []string
 	for c := 0; c < cycles; c++ {
 		coll := &tickCollector{failAt: map[int]bool{}}
+		slowMode := len(f) > 4 && f[4] == "slow"
+		if slowMode {
+			// the failing background flush is slow (6 ms) and EndTest is called while it is in flight: EndTest waits for it
+			// and reports its error; nothing reaches the collector after EndTest has returned
+			coll.slow = 6 * time.Millisecond
+		}
 		if f[1] != "-" {
 			for _, x := range strings.Split(f[1], ",") {
 				coll.failAt[int(atoi64(x))] = true
@@ -311,9 +327,18 @@ func cmdRecTick(o *Out, line string, f []string) {
 			time.Sleep(500 * time.Microsecond)
 		}
 		reached := coll.n() >= K
+		if slowMode {
+			// wait until the slow failing Add (number K: the harness passes the failing index K) has STARTED
+			for coll.startedN() < K+1 && time.Now().Before(deadline) {
+				time.Sleep(100 * time.Microsecond)
+			}
+		}
 		closeBy := "endtest"
 		if len(f) > 4 {
 			closeBy = f[4]
+		}
+		if closeBy == "slow" {
+			closeBy = "endtest"
 		}
 		var err error
 		if closeBy == "reset" {
@@ -507,6 +532,10 @@ func streamRecTick(o *Out, rng *rand.Rand, thorough bool, _ []string) {
 		for _, kind := range []string{"interval", "histInterval"} {
 			lines = append(lines, fmt.Sprintf("rec-tick %s %s %d %d", kind, fa, 6+rng.Intn(4), 1+rng.Intn(2)))
 			lines = append(lines, fmt.Sprintf("rec-tick %s %s %d %d reset", kind, fa, 3+rng.Intn(4), 1+rng.Intn(2)))
+			if fa != "-" {
+				k := 2 + rng.Intn(3)
+				lines = append(lines, fmt.Sprintf("rec-tick %s %d %d %d slow", kind, k, k, 1+rng.Intn(2))) // the K-th Add is the slow failing one
+			}
 		}
 	}
 	runIsolated(o, lines, 30*time.Second)
